@@ -289,6 +289,9 @@ class BitStringPayloadDecoder(AbstractSimplePayloadDecoder):
 
 class OctetStringPayloadDecoder(AbstractSimplePayloadDecoder):
     protoComponent = univ.OctetString('')
+    # segments of a constructed string are OCTET STRINGs whatever the
+    # (character, useful) string type is: X.690 8.7.3, 8.23.6
+    protoFragment = univ.OctetString('')
     supportConstructedForm = True
 
     def valueDecoder(self, substrate, asn1Spec,
@@ -327,7 +330,7 @@ class OctetStringPayloadDecoder(AbstractSimplePayloadDecoder):
         # head = popSubstream(substrate, length)
         while substrate.tell() - original_position < length:
             for component in decodeFun(
-                    substrate, self.protoComponent, substrateFun=substrateFun,
+                    substrate, self.protoFragment, substrateFun=substrateFun,
                     **options):
                 if isinstance(component, SubstrateUnderrunError):
                     yield component
@@ -356,7 +359,7 @@ class OctetStringPayloadDecoder(AbstractSimplePayloadDecoder):
         while True:  # loop over fragments
 
             for component in decodeFun(
-                    substrate, self.protoComponent, substrateFun=substrateFun,
+                    substrate, self.protoFragment, substrateFun=substrateFun,
                     allowEoo=True, **options):
 
                 if isinstance(component, SubstrateUnderrunError):
